@@ -48,6 +48,35 @@ def result_local(ctx, b):
     return None
 
 
+def ops_target(ctx, b):
+    """predicate on the receiver of a push: is it the op vector of the path that flatten returns?  Either `result.ops`
+    of the Path local that is returned, or a vector local that becomes the `ops` field of the returned Path aggregate.
+    None when neither form is found."""
+    an = ctx.an(b)
+    res = result_local(ctx, b)
+    if res is not None and (b.locals[res].get('ty') or '').endswith('Path'):
+        return lambda tgt: (field_path(tgt)[0] == ('mem', res) or field_path(tgt)[0] == ('param', 0)) and field_path(tgt)[1][:1] == ['ops']
+    vec = None
+    for t in shared.ret_terms(ctx, b):
+        t = strip_all(t)
+        if t[0] == 'agg' and (t[2] or '').endswith('path_builder::Path'):
+            o = strip_all(dict(t[4]).get('ops', ('unknown',)))
+            if o[0] in ('mem', 'phi'):
+                vec = o[1]
+    if vec is None and res is not None:
+        # `_0 = move tmp` where tmp = Path{ops: move v, ..}
+        for d in an.defs_of.get(res, []):
+            if d.kind == 'assign' and not d.partial:
+                t = strip_all(an.def_term(d))
+                if t[0] == 'agg' and (t[2] or '').endswith('path_builder::Path'):
+                    o = strip_all(dict(t[4]).get('ops', ('unknown',)))
+                    if o[0] in ('mem', 'phi'):
+                        vec = o[1]
+    if vec is None:
+        return None
+    return lambda tgt: field_path(tgt) == (('mem', vec), []) or field_path(tgt) == (('phi', vec), [])
+
+
 def cursor_locals(ctx, b, m):
     """locals assigned Some(<LineTo payload>)"""
     an = ctx.an(b)
@@ -81,18 +110,17 @@ def cursor_locals(ctx, b, m):
 def r16_1(ctx, b, m):
     R = 'R16.1'
     an = ctx.an(b)
-    res = result_local(ctx, b)
+    is_ops = ops_target(ctx, b)
     key = 'path_builder::Path::flatten'
-    if res is None:
-        ctx.fail(R, key + '|result', b.loc(), 'cannot find the local returned by flatten (fail closed)')
+    if is_ops is None:
+        ctx.fail(R, key + '|result', b.loc(), 'cannot find the op vector of the path returned by flatten (fail closed)')
         return
     n = 0
     for bi, d, ct in calls_in(ctx, b):
         if not (d and d.endswith('Vec::<T, A>::push')):
             continue
         tgt = strip_all(ct[2][0])
-        root, names = field_path(tgt)
-        if not (root == ('mem', res) or root == ('param', 0)) or names[:1] != ['ops']:
+        if not is_ops(tgt):
             continue
         n += 1
         v = strip_all(ct[2][1])
@@ -117,8 +145,7 @@ def r16_1(ctx, b, m):
         fw = set()
         for bi, d, ct in calls_in(ctx, b, region):
             if d and d.endswith('Vec::<T, A>::push'):
-                root, names = field_path(strip_all(ct[2][0]))
-                if (root == ('mem', res) or root == ('param', 0)) and names[:1] == ['ops']:
+                if is_ops(strip_all(ct[2][0])):
                     fw.add(bi)
         okf, pth = an.cfg.must_pass_through(m.arms[v], fw, exits=[stop] if stop is not None else None)
         ctx.check(okf and bool(fw), R, key + '|%s forwarded on every path' % v, b.loc(), 'every path through the %s arm pushes the op' % v,
@@ -303,8 +330,13 @@ def r16_3(ctx, b, m):
                             okpath = can.cfg.must_pass_through(0, set([cps[0][0]]))[0]
                             # the vector pushed to is the captured ops of the result
                             ups = [strip_all(x[1]) for x in clo[4]]
-                            res_l = result_local(ctx, b)
-                            okup = any(field_path(u)[0] in (('mem', res_l), ('phi', res_l)) or (u[0] == 'ref' and strip_all(u[1]) in (('mem', res_l),)) for u in ups)
+                            is_ops2 = ops_target(ctx, b)
+                            def _peel(u):
+                                u = strip_all(u)
+                                while u[0] in ('ref', 'deref'):
+                                    u = strip_all(u[1])
+                                return u
+                            okup = is_ops2 is not None and any(is_ops2(_peel(u)) or (field_path(_peel(u))[1][:1] != ['ops'] and is_ops2(('field', _peel(u), 'ops', None, None))) for u in ups)
                             okc2 = okv and okpath and okup and an.cfg.must_pass_through(m.arms[v], set([fes[0][0]]), exits=[an.cfg.ipdom(m.bb)] if an.cfg.ipdom(m.bb) is not None else None)[0]
                 ctx.check(okc2, R, key + '|%s every point pushed' % v, call_line(b, bi), 'every yielded point is pushed as LineTo (for_each)',
                           'the %s arm does not push every point yielded by flattened() as a LineTo' % v)
